@@ -591,6 +591,14 @@ def negativeWithForeignRecords (zone : Name) (q : Query) (r : Response) : Bool :
    | _ => false) &&
     (r.authorities ++ r.additionals).any fun x => !isSubzone zone x.name
 
+/-- the same class, answer-filter side: `NameServerPool::send` applies the answer filter to
+positive responses only, so a negative response keeps address records the filter denies. -/
+def negativeWithDeniedAddress (f : Acs) (q : Query) (r : Response) : Bool :=
+  (match fromResponse q r with
+   | .error (.noRecords ..) => true
+   | _ => false) &&
+    (r.authorities ++ r.additionals).any fun x => !addrAllowed f x
+
 /-! ## stub resolver alias chasing (`CachingClient::inner_lookup`, `DepthTracker`) -/
 
 /-- `DepthTracker::MAX_QUERY_DEPTH` (tied to the source by `Proofs/TiesC19.lean`) -/
